@@ -4,7 +4,7 @@ the book and the property text), the fragment of declarable types, arity well-fo
 relate `bindIn` / `mix` to them.
 -/
 import XrayModel.Types
-set_option maxHeartbeats 800000
+set_option maxHeartbeats 1600000
 namespace XrayModel
 
 theorem bindIn_callable_callable (ps ps' : List Ty) (r r' : Ty) (b : Bnd)
@@ -910,6 +910,492 @@ theorem commonZip_least : (as bs cs ds : List Ty) → commonZip as bs = some cs 
           | cons h2a h2b =>
             exact .cons (commonType_least' a b c _ hc h1a h2a) (commonZip_least as bs cs' _ hz h1b h2b)
 end
+
+
+/-! ## soundness of non-empty bindings: ground types, substitution, `mix` as an upper bound -/
+
+mutual
+/-- fully known expression types: no XFunc, no generic parameter (the bottom type is allowed) -/
+def ground : Ty → Bool
+  | .func _ _ _ _ => false
+  | .generic _ => false
+  | .tuple ts => groundList ts
+  | .native _ ts => groundList ts
+  | .compound _ _ ts => groundList ts
+  | .callable ps r => groundList ps && ground r
+  | _ => true
+def groundList : List Ty → Bool
+  | [] => true
+  | t :: ts => ground t && groundList ts
+end
+
+mutual
+theorem ground_funcFree : (t : Ty) → ground t = true → funcFree t = true
+  | .bool, _ | .int, _ | .float, _ | .str, _ | .unknown, _ => rfl
+  | .generic _, h => by simp [ground] at h
+  | .func _ _ _ _, h => by simp [ground] at h
+  | .tuple ts, h => by simp only [ground] at h; simp only [funcFree]; exact groundList_funcFree ts h
+  | .native _ ts, h => by simp only [ground] at h; simp only [funcFree]; exact groundList_funcFree ts h
+  | .compound _ _ ts, h => by simp only [ground] at h; simp only [funcFree]; exact groundList_funcFree ts h
+  | .callable ps r, h => by
+    simp only [ground, Bool.and_eq_true] at h
+    simp only [funcFree, Bool.and_eq_true]; exact ⟨groundList_funcFree ps h.1, ground_funcFree r h.2⟩
+theorem groundList_funcFree : (ts : List Ty) → groundList ts = true → funcFreeList ts = true
+  | [], _ => rfl
+  | t :: ts, h => by
+    simp only [groundList, Bool.and_eq_true] at h
+    simp only [funcFreeList, Bool.and_eq_true]; exact ⟨ground_funcFree t h.1, groundList_funcFree ts h.2⟩
+end
+
+mutual
+/-- substitution of a binding into a type (everywhere, also inside function types) -/
+def subst (b : Bnd) : Ty → Ty
+  | .generic a => match Bnd.get b a with | some t => t | none => .generic a
+  | .tuple ts => .tuple (substList b ts)
+  | .native n ts => .native n (substList b ts)
+  | .compound k n ts => .compound k n (substList b ts)
+  | .callable ps r => .callable (substList b ps) (subst b r)
+  | .func g ps n r => .func g (substList b ps) n (subst b r)
+  | t => t
+def substList (b : Bnd) : List Ty → List Ty
+  | [] => []
+  | t :: ts => subst b t :: substList b ts
+end
+
+theorem substList_length (b : Bnd) : (ts : List Ty) → (substList b ts).length = ts.length
+  | [] => rfl
+  | _ :: ts => by simp [substList, substList_length b ts]
+
+theorem substList_take (b : Bnd) : (ts : List Ty) → (n : Nat) → substList b (ts.take n) = (substList b ts).take n
+  | [], n => by simp [substList]
+  | _ :: ts, 0 => by simp [substList]
+  | t :: ts, n + 1 => by simp [substList, substList_take b ts n]
+
+/-! ### bindings: values, order -/
+theorem get_mem (b : Bnd) (k : String) (v : Ty) (h : Bnd.get b k = some v) : (k, v) ∈ b := by
+  induction b with
+  | nil => simp [Bnd.get] at h
+  | cons e rest ih =>
+    obtain ⟨k', v'⟩ := e
+    simp only [Bnd.get] at h
+    split at h
+    · rename_i hk; cases h; subst hk; simp
+    · exact List.mem_cons_of_mem _ (ih h)
+
+theorem mem_insert (b : Bnd) (k : String) (v : Ty) (e : String × Ty) (h : e ∈ Bnd.insert b k v) : e = (k, v) ∨ e ∈ b := by
+  induction b with
+  | nil => simp [Bnd.insert] at h; exact .inl h
+  | cons e' rest ih =>
+    obtain ⟨k', v'⟩ := e'
+    simp only [Bnd.insert] at h
+    split at h
+    · simp only [List.mem_cons] at h ⊢
+      rcases h with h | h
+      · exact .inl h
+      · exact .inr (.inr h)
+    · simp only [List.mem_cons] at h ⊢
+      rcases h with h | h
+      · exact .inr (.inl h)
+      · rcases ih h with h' | h'
+        · exact .inl h'
+        · exact .inr (.inr h')
+
+/-- every bound type is XFunc-free and arity-well-formed -/
+def BOk (ar : String → Nat) (b : Bnd) : Prop := ∀ k v, (k, v) ∈ b → good ar v
+
+/-- `b2` binds at least the keys of `b1`, to types above (`Sub`) those of `b1` -/
+def ble (b1 b2 : Bnd) : Prop := ∀ k v, Bnd.get b1 k = some v → ∃ v', Bnd.get b2 k = some v' ∧ Sub v v'
+
+theorem ble_refl (ar : String → Nat) (b : Bnd) (h : BOk ar b) : ble b b :=
+  fun k v hg => ⟨v, hg, sub_refl' v (h k v (get_mem b k v hg)).1⟩
+
+theorem ble_trans {b1 b2 b3 : Bnd} (h12 : ble b1 b2) (h23 : ble b2 b3) : ble b1 b3 := by
+  intro k v hg
+  obtain ⟨v', hg', hs⟩ := h12 k v hg
+  obtain ⟨v'', hg'', hs'⟩ := h23 k v' hg'
+  exact ⟨v'', hg'', sub_trans _ _ _ hs hs'⟩
+
+theorem bok_insert (ar : String → Nat) (b : Bnd) (k : String) (v : Ty) (hb : BOk ar b) (hv : good ar v) :
+    BOk ar (Bnd.insert b k v) := by
+  intro k' v' hm
+  rcases mem_insert b k v _ hm with h | h
+  · cases h; exact hv
+  · exact hb k' v' h
+
+/-- `mix` yields an upper bound of both bindings -/
+theorem mix_ub (ar : String → Nat) (self other res : Bnd) (hs : BOk ar self) (ho : BOk ar other)
+    (h : mix self other = some res) :
+    BOk ar res ∧ ble self res ∧ ∀ k v, (k, v) ∈ other → ∃ v', Bnd.get res k = some v' ∧ Sub v v' := by
+  induction other generalizing self with
+  | nil =>
+    simp [mix] at h; subst h
+    exact ⟨hs, ble_refl ar self hs, fun _ _ hm => by simp at hm⟩
+  | cons e rest ih =>
+    obtain ⟨k, v⟩ := e
+    have hv : good ar v := ho k v (by simp)
+    have hrest : BOk ar rest := fun k' v' hm => ho k' v' (List.mem_cons_of_mem _ hm)
+    simp only [mix] at h
+    -- the binding after this entry, and what it guarantees
+    have step : ∀ c, good ar c → Sub v c → (∀ ex, Bnd.get self k = some ex → Sub ex c) →
+        mix (Bnd.insert self k c) rest = some res →
+        BOk ar res ∧ ble self res ∧ ∀ k' v', (k', v') ∈ (k, v) :: rest → ∃ v'', Bnd.get res k' = some v'' ∧ Sub v' v'' := by
+      intro c hc hvc hex hm
+      obtain ⟨r1, r2, r3⟩ := ih (Bnd.insert self k c) (bok_insert ar self k c hs hc) hrest hm
+      have hself : ble self (Bnd.insert self k c) := by
+        intro k' v' hg
+        by_cases hk : k = k'
+        · subst hk; exact ⟨c, get_insert_same self k c, hex v' hg⟩
+        · exact ⟨v', by rw [get_insert_other self k k' c hk]; exact hg, sub_refl' v' (hs k' v' (get_mem self k' v' hg)).1⟩
+      refine ⟨r1, ble_trans hself r2, ?_⟩
+      intro k' v' hm'
+      simp only [List.mem_cons] at hm'
+      rcases hm' with hm' | hm'
+      · cases hm'
+        obtain ⟨v'', hg'', hs''⟩ := r2 k c (get_insert_same self k c)
+        exact ⟨v'', hg'', sub_trans _ _ _ hvc hs''⟩
+      · exact r3 k' v' hm'
+    cases hg : Bnd.get self k with
+    | some ex =>
+      simp only [hg] at h
+      cases hc : commonType ex v with
+      | none => simp [hc] at h
+      | some c =>
+        simp only [hc] at h
+        obtain ⟨gc, s1, s2⟩ := commonType_ub' ar ex v c (hs k ex (get_mem self k ex hg)) hv hc
+        exact step c gc s2 (fun ex' he => by rw [hg] at he; cases he; exact s1) h
+    | none =>
+      simp only [hg] at h
+      exact step v hv (sub_refl' v hv.1) (fun ex he => by rw [hg] at he; cases he) h
+
+/-! ### substitution is monotone in the binding (for fully known supplied types) -/
+mutual
+theorem subst_mono (b1 b2 : Bnd) (hb : ble b1 b2) : (r s : Ty) → ground s = true → Sub s (subst b1 r) → Sub s (subst b2 r)
+  | .bool, _, _, h | .int, _, _, h | .float, _, _, h | .str, _, _, h | .unknown, _, _, h => by
+    simpa [subst] using h
+  | .generic a, s, hg, h => by
+    simp only [subst] at h ⊢
+    cases h1 : Bnd.get b1 a with
+    | some v1 =>
+      simp only [h1] at h
+      obtain ⟨v2, h2, hs⟩ := hb a v1 h1
+      simp only [h2]; exact sub_trans _ _ _ h hs
+    | none =>
+      simp only [h1] at h
+      rcases (sub_generic_iff s a).mp h with rfl | rfl
+      · exact .bot _
+      · simp [ground] at hg
+  | .tuple rs, s, hg, h => by
+    simp only [subst] at h ⊢
+    rcases (sub_tuple_iff s _).mp h with rfl | ⟨ss, rfl, hl⟩
+    · exact .bot _
+    · exact .tuple (substList_mono b1 b2 hb rs ss (by simpa [ground] using hg) hl)
+  | .native n rs, s, hg, h => by
+    simp only [subst] at h ⊢
+    rcases (sub_native_iff s n _).mp h with rfl | ⟨ss, rfl, hl⟩
+    · exact .bot _
+    · exact .native (substList_mono b1 b2 hb rs ss (by simpa [ground] using hg) hl)
+  | .compound k n rs, s, hg, h => by
+    simp only [subst] at h ⊢
+    rcases (sub_compound_iff s k n _).mp h with rfl | ⟨ss, rfl, hl⟩
+    · exact .bot _
+    · exact .compound (substList_mono b1 b2 hb rs ss (by simpa [ground] using hg) hl)
+  | .callable ps r, s, hg, h => by
+    simp only [subst] at h ⊢
+    rcases (sub_callable_iff s _ _).mp h with rfl | ⟨ps', r', rfl, hp, hr⟩ | ⟨g, ps', n', r', rfl, _⟩
+    · exact .bot _
+    · simp only [ground, Bool.and_eq_true] at hg
+      exact .callable (substList_mono b1 b2 hb ps ps' hg.1 hp) (subst_mono b1 b2 hb r r' hg.2 hr)
+    · simp [ground] at hg
+  | .func g ps n r, s, _, h => by
+    simp only [subst] at h ⊢
+    rw [(sub_func_iff s _ _ _ _).mp h]; exact .bot _
+theorem substList_mono (b1 b2 : Bnd) (hb : ble b1 b2) : (rs ss : List Ty) → groundList ss = true →
+    SubList ss (substList b1 rs) → SubList ss (substList b2 rs)
+  | [], ss, _, h => by simpa [substList] using h
+  | r :: rs, ss, hg, h => by
+    simp only [substList] at h ⊢
+    cases h with
+    | cons h1 h2 =>
+      simp only [groundList, Bool.and_eq_true] at hg
+      exact .cons (subst_mono b1 b2 hb r _ hg.1 h1) (substList_mono b1 b2 hb rs _ hg.2 h2)
+end
+
+
+/-! ## soundness of `bind_in_assignment` with any binding -/
+
+theorem ble_nil (b : Bnd) : ble [] b := fun k v h => by simp [Bnd.get] at h
+
+theorem bok_nil (ar : String → Nat) : BOk ar [] := fun _ _ h => by simp at h
+
+/-- membership form of the order implies the lookup form -/
+theorem ble_of_mem {b1 b2 : Bnd} (h : ∀ k v, (k, v) ∈ b1 → ∃ v', Bnd.get b2 k = some v' ∧ Sub v v') : ble b1 b2 :=
+  fun k v hg => h k v (get_mem b1 k v hg)
+
+theorem ground_good (ar : String → Nat) (t : Ty) (hg : ground t = true) (hw : wfTy ar t = true) : good ar t :=
+  ⟨ground_funcFree t hg, hw⟩
+
+/-- the last two steps of the three function-type arms -/
+theorem tail_sound (ar : String → Nat) (acc bret b : Bnd) (ps ps' : List Ty) (r r' : Ty)
+    (hgp : groundList ps' = true) (hgr : ground r' = true)
+    (hacc : BOk ar acc) (hbret : BOk ar bret) (hm : mix acc bret = some b)
+    (h1 : SubList (ps'.take ps.length) (substList acc ps)) (h2 : Sub r' (subst bret r)) :
+    BOk ar b ∧ SubList (ps'.take ps.length) (substList b ps) ∧ Sub r' (subst b r) := by
+  obtain ⟨m1, m2, m3⟩ := mix_ub ar acc bret b hacc hbret hm
+  refine ⟨m1, substList_mono acc b m2 ps _ ?_ h1, subst_mono bret b (ble_of_mem m3) r r' hgr h2⟩
+  -- a prefix of a ground list is ground
+  have : ∀ (l : List Ty) (n : Nat), groundList l = true → groundList (l.take n) = true := by
+    intro l
+    induction l with
+    | nil => intro n _; simp [groundList]
+    | cons x xs ih =>
+      intro n h
+      cases n with
+      | zero => simp [groundList]
+      | succ n =>
+        simp only [groundList, Bool.and_eq_true, List.take_succ_cons] at h ⊢
+        exact ⟨h.1, ih n h.2⟩
+  exact this ps' ps.length hgp
+
+mutual
+theorem bindIn_sound (ar : String → Nat) : (r s : Ty) → (b : Bnd) → declarable r = true → wfTy ar r = true →
+    ground s = true → wfTy ar s = true → bindIn r s = some b → BOk ar b ∧ Sub s (subst b r)
+  | .bool, s, b, _, _, _, _, h => by
+    cases s <;> simp [bindIn] at h <;> subst h <;> exact ⟨bok_nil ar, by simp [subst]; first | exact .bool | exact .bot _⟩
+  | .int, s, b, _, _, _, _, h => by
+    cases s <;> simp [bindIn] at h <;> subst h <;> exact ⟨bok_nil ar, by simp [subst]; first | exact .int | exact .bot _⟩
+  | .float, s, b, _, _, _, _, h => by
+    cases s <;> simp [bindIn] at h <;> subst h <;> exact ⟨bok_nil ar, by simp [subst]; first | exact .float | exact .bot _⟩
+  | .str, s, b, _, _, _, _, h => by
+    cases s <;> simp [bindIn] at h <;> subst h <;> exact ⟨bok_nil ar, by simp [subst]; first | exact .str | exact .bot _⟩
+  | .unknown, _, _, hd, _, _, _, _ => by simp [declarable] at hd
+  | .func _ _ _ _, _, _, hd, _, _, _, _ => by simp [declarable] at hd
+  | .generic a, s, b, _, _, hg, hw, h => by
+    have hgood := ground_good ar s hg hw
+    cases s with
+    | generic x => simp [ground] at hg
+    | unknown => simp [bindIn] at h; subst h; exact ⟨bok_nil ar, .bot _⟩
+    | func _ _ _ _ => simp [ground] at hg
+    | _ =>
+      simp [bindIn] at h; subst h
+      refine ⟨?_, ?_⟩
+      · intro k v hm; simp at hm; obtain ⟨_, rfl⟩ := hm; exact hgood
+      · simp [subst, Bnd.get]; exact sub_refl' _ hgood.1
+  | .tuple rs, s, b, hd, hr, hg, hw, h => by
+    cases s with
+    | unknown => simp [bindIn] at h; subst h; exact ⟨bok_nil ar, .bot _⟩
+    | tuple ss =>
+      simp only [declarable, wfTy, ground] at hd hr hg hw
+      simp only [bindIn] at h
+      split at h
+      · cases h
+      · rename_i hl
+        simp only [bne_iff_ne, ne_eq, Decidable.not_not] at hl
+        obtain ⟨k1, _, k3⟩ := bindZip_sound ar rs ss [] b hd hr hg hw (by omega) (bok_nil ar) h
+        rw [hl, List.take_length] at k3
+        exact ⟨k1, by simp only [subst]; exact .tuple k3⟩
+    | _ => simp [bindIn] at h
+  | .native n rs, s, b, hd, hr, hg, hw, h => by
+    cases s with
+    | unknown => simp [bindIn] at h; subst h; exact ⟨bok_nil ar, .bot _⟩
+    | native m ss =>
+      simp only [declarable, wfTy, ground, Bool.and_eq_true, beq_iff_eq] at hd hr hg hw
+      simp only [bindIn] at h
+      split at h
+      · cases h
+      · rename_i hc
+        simp only [bne_iff_ne, ne_eq, Decidable.not_not] at hc
+        subst hc
+        have hl : rs.length = ss.length := by omega
+        obtain ⟨k1, _, k3⟩ := bindZip_sound ar rs ss [] b hd hr.2 hg hw.2 (by omega) (bok_nil ar) h
+        rw [hl, List.take_length] at k3
+        exact ⟨k1, by simp only [subst]; exact .native k3⟩
+    | _ => simp [bindIn] at h
+  | .compound k n rs, s, b, hd, hr, hg, hw, h => by
+    cases s with
+    | unknown => simp [bindIn] at h; subst h; exact ⟨bok_nil ar, .bot _⟩
+    | compound k' m ss =>
+      simp only [declarable, wfTy, ground, Bool.and_eq_true, beq_iff_eq] at hd hr hg hw
+      simp only [bindIn] at h
+      split at h
+      · cases h
+      · rename_i hc
+        simp only [Bool.or_eq_true, bne_iff_ne, ne_eq, not_or, Decidable.not_not] at hc
+        obtain ⟨rfl, rfl⟩ := hc
+        have hl : rs.length = ss.length := by omega
+        obtain ⟨k1, k3⟩ := bindZipRev_sound ar rs ss b hd hr.2 hg hw.2 hl h
+        exact ⟨k1, by simp only [subst]; exact .compound k3⟩
+    | _ => simp [bindIn] at h
+  | .callable ps r, s, b, hd, hr, hg, hw, h => by
+    cases s with
+    | unknown => simp [bindIn] at h; subst h; exact ⟨bok_nil ar, .bot _⟩
+    | func _ _ _ _ => simp [ground] at hg
+    | callable ps' r' =>
+      simp only [declarable, wfTy, ground, Bool.and_eq_true] at hd hr hg hw
+      simp only [bindIn] at h
+      split at h
+      · cases h
+      · rename_i hl
+        simp only [bne_iff_ne, ne_eq, Decidable.not_not] at hl
+        split at h
+        · cases h
+        · rename_i acc hacc
+          split at h
+          · cases h
+          · rename_i bret hbret
+            obtain ⟨a1, _, a3⟩ := bindZip_sound ar ps ps' [] acc hd.1 hr.1 hg.1 hw.1 (by omega) (bok_nil ar) hacc
+            obtain ⟨r1, r2⟩ := bindIn_sound ar r r' bret hd.2 hr.2 hg.2 hw.2 hbret
+            obtain ⟨t1, t2, t3⟩ := tail_sound ar acc bret b ps ps' r r' hg.1 hg.2 a1 r1 h a3 r2
+            rw [hl, List.take_length] at t2
+            exact ⟨t1, by simp only [subst]; exact .callable t2 t3⟩
+    | _ => simp [bindIn] at h
+theorem bindZip_sound (ar : String → Nat) : (rs ss : List Ty) → (acc res : Bnd) → declarableList rs = true →
+    wfList ar rs = true → groundList ss = true → wfList ar ss = true → rs.length ≤ ss.length → BOk ar acc →
+    bindZip rs ss acc = some res →
+    BOk ar res ∧ ble acc res ∧ SubList (ss.take rs.length) (substList res rs)
+  | [], ss, acc, res, _, _, _, _, _, hacc, h => by
+    simp [bindZip] at h; subst h
+    exact ⟨hacc, ble_refl ar acc hacc, by simp [substList]; exact .nil⟩
+  | _ :: _, [], _, _, _, _, _, _, hl, _, _ => by simp at hl
+  | r :: rs, s :: ss, acc, res, hd, hr, hg, hw, hl, hacc, h => by
+    simp only [declarableList, wfList, groundList, Bool.and_eq_true] at hd hr hg hw
+    simp only [List.length_cons, Nat.add_le_add_iff_right] at hl
+    simp only [bindZip] at h
+    split at h
+    · cases h
+    · rename_i sub hsub
+      split at h
+      · cases h
+      · rename_i acc' hacc'
+        obtain ⟨s1, s2⟩ := bindIn_sound ar r s sub hd.1 hr.1 hg.1 hw.1 hsub
+        obtain ⟨m1, m2, m3⟩ := mix_ub ar acc sub acc' hacc s1 hacc'
+        obtain ⟨z1, z2, z3⟩ := bindZip_sound ar rs ss acc' res hd.2 hr.2 hg.2 hw.2 hl m1 h
+        refine ⟨z1, ble_trans m2 z2, ?_⟩
+        simp only [List.length_cons, List.take_succ_cons, substList]
+        exact .cons (subst_mono sub res (ble_trans (ble_of_mem m3) z2) r s hg.1 s2) z3
+theorem bindZipRev_sound (ar : String → Nat) : (rs ss : List Ty) → (res : Bnd) → declarableList rs = true →
+    wfList ar rs = true → groundList ss = true → wfList ar ss = true → rs.length = ss.length →
+    bindZipRev rs ss = some res → BOk ar res ∧ SubList ss (substList res rs)
+  | [], ss, res, _, _, _, _, hl, h => by
+    have : ss = [] := by cases ss <;> simp_all
+    subst this
+    simp [bindZipRev] at h; subst h
+    exact ⟨bok_nil ar, by simp [substList]; exact .nil⟩
+  | _ :: _, [], _, _, _, _, _, hl, _ => by simp at hl
+  | r :: rs, s :: ss, res, hd, hr, hg, hw, hl, h => by
+    simp only [declarableList, wfList, groundList, Bool.and_eq_true] at hd hr hg hw
+    simp only [List.length_cons, Nat.add_right_cancel_iff] at hl
+    simp only [bindZipRev] at h
+    split at h
+    · cases h
+    · rename_i acc hacc
+      split at h
+      · cases h
+      · rename_i sub hsub
+        obtain ⟨s1, s2⟩ := bindIn_sound ar r s sub hd.1 hr.1 hg.1 hw.1 hsub
+        obtain ⟨z1, z3⟩ := bindZipRev_sound ar rs ss acc hd.2 hr.2 hg.2 hw.2 hl hacc
+        obtain ⟨m1, m2, m3⟩ := mix_ub ar acc sub res z1 s1 h
+        refine ⟨m1, ?_⟩
+        simp only [substList]
+        exact .cons (subst_mono sub res (ble_of_mem m3) r s hg.1 s2) (substList_mono acc res m2 rs ss hg.2 z3)
+end
+
+/-- a function name (XFunc with fully known parameter and return types) supplied where a function type is required -/
+theorem bindIn_sound_func (ar : String → Nat) (ps : List Ty) (r : Ty) (g : Option (List String)) (ps' : List Ty)
+    (n' : Nat) (r' : Ty) (b : Bnd)
+    (hd : declarable (.callable ps r) = true) (hr : wfTy ar (.callable ps r) = true)
+    (hgp : groundList ps' = true) (hgr : ground r' = true) (hw : wfTy ar (.func g ps' n' r') = true)
+    (h : bindIn (.callable ps r) (.func g ps' n' r') = some b) :
+    Sub (.func g ps' n' r') (subst b (.callable ps r)) := by
+  simp only [declarable, wfTy, Bool.and_eq_true, decide_eq_true_eq] at hd hr hw
+  simp only [bindIn] at h
+  split at h
+  · cases h
+  · rename_i hc
+    simp only [Bool.or_eq_true, decide_eq_true_eq, not_or, Nat.not_lt] at hc
+    split at h
+    · cases h
+    · rename_i acc hacc
+      split at h
+      · cases h
+      · rename_i bret hbret
+        obtain ⟨a1, _, a3⟩ := bindZip_sound ar ps ps' [] acc hd.1 hr.1 hgp hw.1.1 (by omega) (bok_nil ar) hacc
+        obtain ⟨r1, r2⟩ := bindIn_sound ar r r' bret hd.2 hr.2 hgr hw.1.2 hbret
+        obtain ⟨_, t2, t3⟩ := tail_sound ar acc bret b ps ps' r r' hgp hgr a1 r1 h a3 r2
+        simp only [subst]
+        refine .func (by rw [substList_length]; omega) (by rw [substList_length]; omega) ?_ t3
+        rw [substList_length]; exact t2
+
+
+/-! ## calls and constructors -/
+
+theorem bindZip_take_left : (rs ss : List Ty) → (acc : Bnd) → bindZip rs ss acc = bindZip (rs.take ss.length) ss acc
+  | [], ss, acc => by simp
+  | r :: rs, [], acc => by simp [bindZip]
+  | r :: rs, s :: ss, acc => by
+    simp only [List.length_cons, List.take_succ_cons, bindZip]
+    split
+    · rfl
+    · split
+      · rfl
+      · exact bindZip_take_left rs ss _
+
+theorem declarableList_take : (l : List Ty) → (n : Nat) → declarableList l = true → declarableList (l.take n) = true
+  | [], n, _ => by simp [declarableList]
+  | _ :: _, 0, _ => by simp [declarableList]
+  | x :: xs, n + 1, h => by
+    simp only [declarableList, Bool.and_eq_true, List.take_succ_cons] at h ⊢
+    exact ⟨h.1, declarableList_take xs n h.2⟩
+
+theorem wfList_take (ar : String → Nat) : (l : List Ty) → (n : Nat) → wfList ar l = true → wfList ar (l.take n) = true
+  | [], n, _ => by simp [wfList]
+  | _ :: _, 0, _ => by simp [wfList]
+  | x :: xs, n + 1, h => by
+    simp only [wfList, Bool.and_eq_true, List.take_succ_cons] at h ⊢
+    exact ⟨h.1, wfList_take ar xs n h.2⟩
+
+/-- `XFuncSpec::bind`: every argument is assignable to its parameter instantiated with the final binding -/
+theorem specBind_sound' (ar : String → Nat) (f : FuncSpec) (args : List Ty) (b : Bnd)
+    (hd : declarableList f.ps = true) (hr : wfList ar f.ps = true)
+    (hg : groundList args = true) (hw : wfList ar args = true) (h : specBind f args = some b) :
+    SubList args (substList b (f.ps.take args.length)) := by
+  unfold specBind at h
+  split at h
+  · cases h
+  · rename_i hc
+    simp only [Bool.or_eq_true, decide_eq_true_eq, not_or, Nat.not_lt, Nat.not_lt] at hc
+    rw [bindZip_take_left] at h
+    have hl : (f.ps.take args.length).length = args.length := by simp; omega
+    obtain ⟨_, _, k3⟩ := bindZip_sound ar (f.ps.take args.length) args [] b
+      (declarableList_take _ _ hd) (wfList_take ar _ _ hr) hg hw (by omega) (bok_nil ar) h
+    rw [hl, List.take_length] at k3
+    exact k3
+
+theorem compoundBindLoop_eq : (as fs : List Ty) → (acc : Bnd) → compoundBindLoop as fs acc = bindZip fs as acc
+  | [], [], acc => by simp [compoundBindLoop, bindZip]
+  | [], _ :: _, acc => by simp [compoundBindLoop, bindZip]
+  | _ :: _, [], acc => by simp [compoundBindLoop, bindZip]
+  | a :: as, f :: fs, acc => by
+    simp only [compoundBindLoop, bindZip]
+    split
+    · rfl
+    · split
+      · rfl
+      · exact compoundBindLoop_eq as fs _
+
+/-- `XCompoundSpec::bind`: every constructor argument is assignable to its field type instantiated with the final binding -/
+theorem compoundBind_sound' (ar : String → Nat) (fields args : List Ty) (b : Bnd)
+    (hd : declarableList fields = true) (hr : wfList ar fields = true)
+    (hg : groundList args = true) (hw : wfList ar args = true) (h : compoundBind fields args = some b) :
+    SubList args (substList b fields) := by
+  unfold compoundBind at h
+  split at h
+  · cases h
+  · rename_i hl
+    simp only [bne_iff_ne, ne_eq, Decidable.not_not] at hl
+    rw [compoundBindLoop_eq] at h
+    obtain ⟨_, _, k3⟩ := bindZip_sound ar fields args [] b hd hr hg hw (by omega) (bok_nil ar) h
+    rw [← hl, List.take_length] at k3
+    exact k3
 
 
 end XrayModel
